@@ -182,7 +182,7 @@ def payload(item, clause, detail):
         spec = wide.to_spec7(item)
     else:
         spec = to_spec(item)
-    return {"item": item, "detail": detail, "spec": spec, "tjp": render.render(spec)}
+    return {"item": item, "detail": detail, "spec": spec, "tjp": render.render(spec), "mode": item.get("mode", "rebuilt")}
 
 
 def sample(item):
@@ -198,6 +198,9 @@ def run(ctx):
     explore(ctx, universe(ctx.tier), "mc.props.c07:evaluate", st, payload=payload, sample_of=sample)
     from mc.props import wide
     explore(ctx, wide.universe7(ctx.tier), "mc.props.c07:evaluate", st, payload=payload, sample_of=sample)
+    # the same family (<= 1 toggle; thorough <= 2) on the pure-Python fallbacks
+    pure = [dict(it, mode="blocked") for it in wide.universe7(ctx.tier) if len(it["t"]) <= (1 if ctx.tier == "quick" else 2)]
+    explore(ctx, pure, "mc.props.c07:evaluate", st, mode="blocked", payload=payload, sample_of=sample)
     common.vacuity_guard(ctx, st)
     cov = st.coverage(
         "container-predecessor projects (two tasks in a container, a third depending on the container, either declaration order) + complete product universe: n tasks x efforts x allocation per task x every acyclic edge set (<= 2 edges, either declaration "
